@@ -128,7 +128,7 @@ def ref_format(s, i):
             i = j
         if ph["ty"] not in TYPES:
             return None
-    while i < len(s) and s[i].isspace():
+    while i < len(s) and G.rust_is_whitespace(s[i]):
         i += 1
     if i < len(s) and s[i] == "}":
         return ph, i + 1
@@ -379,6 +379,14 @@ def first_set(rules, n, seen=()):
         return s, True
     if k in ("plus", "map", "usize"):
         return first_set(rules, n.p, seen)
+    if k == "wrap":
+        out = set()
+        for it in list(n.pre) + [n.p]:
+            s, nl = first_set(rules, it, seen)
+            out |= s
+            if not nl:
+                return out, False
+        return out, True
     if k == "bind":
         s, nl = first_set(rules, n.p, seen)
         if nl:
@@ -571,6 +579,9 @@ def iter_nodes(n):
     if hasattr(n, "items"):
         for it in n.items:
             yield from iter_nodes(it)
+    if hasattr(n, "pre"):
+        for it in n.pre:
+            yield from iter_nodes(it)
     if hasattr(n, "steps"):
         for v, p, r in n.steps:
             yield from iter_nodes(p)
@@ -591,6 +602,8 @@ def has_ws_before_close(rules, fmt):
         for node in iter_nodes(p):
             if node.k == "seq" and len(node.items) >= 2 and any(x.k == "star" and x.p.k == "cls" and x.p.pred == ("ws",) for x in node.items) and node.items[-1].k == "lit" and node.items[-1].s == "}":
                 return True
+            if node.k == "wrap" and node.pre and node.p.k == "lit" and node.p.s == "}":
+                return True
     return False
 
 
@@ -609,7 +622,7 @@ def gen_placeholders(seed, tier):
     widths = ["", "5", "05", "1$", "0$", "w$", "_w$", "é$", "$"]
     precs = ["", ".", ".3", ".*", ".1$", ".p$", ".0", "._$"]
     types = ["", "?", "x?", "X?", "o", "x", "X", "p", "b", "e", "E", "y", "xx", "??", "x ?"]
-    wss = ["", " ", "  ", "\t"]
+    wss = ["", " ", "  ", "\t", "\u2003", "\u00a0 "]
     if tier != "thorough":
         # quick: pairwise-ish sample of the product
         rnd = random.Random(seed or 1)
@@ -786,3 +799,56 @@ def rule_fmt_counter(ctx):
     ctx.instance("trait-name-source")
     if ".trait_name()" not in txt:
         ctx.report("trait-name", where, "the placeholder's trait is no longer taken from `Type::trait_name()`", {})
+
+
+def rule_single_placeholder(ctx):
+    """TRANSP-EQUIV: the question transparency (C05) asks the parser - "is the literal exactly one placeholder and nothing else?" (`parsing::format(lit)` succeeds and leaves an empty rest) - gets std's answer on every generated literal: yes iff the literal starts with a (non-escaped) `{`, std's reading of that one placeholder ends at the last character of the literal; text, escapes or white space before or after the placeholder make it a no."""
+    ex, rules = extract(ctx)
+    interp = G.Interp(rules)
+    if "format" not in rules:
+        raise A.AnchorLost("impl/src/fmt/parsing.rs::format", "grammar rule missing")
+    # the consumer really asks exactly this question
+    fn = A.get_fn(ctx.files, "impl/src/fmt/mod.rs", "FmtAttribute::transparent_call")
+    t = A.fn_text(fn)
+    ctx.instance("single:consumer")
+    if A.wsearch(t, "parsing::format(&lit).and_then(|(more,p)|more.is_empty().then_some(p))?") is None:
+        ctx.report("single:consumer", ctx.where(fn.file, fn.node), "`transparent_call` no longer decides 'exactly one placeholder' by `parsing::format(&lit)` leaving an empty rest: the model of that question is unfounded - re-audit", {})
+    tails = ["", " ", "\t", "\n", "  ", "x", "{{", "}}", "\u2003", "{}", " x"]
+    heads = ["", " ", "x", "{{", "\n"]
+    n = 0
+    diffs = {}
+    seen = set()
+    phs = list(dict.fromkeys(gen_placeholders(ctx.seed, ctx.tier)))
+    rnd = random.Random((ctx.seed or 1) * 104729)
+    sample = phs if ctx.tier == "thorough" else rnd.sample(phs, min(len(phs), 2500))
+    for p in sample:
+        for h in heads:
+            for tl in tails:
+                if h and tl and ctx.tier != "thorough":
+                    continue
+                lit = h + p + tl
+                if lit in seen:
+                    continue
+                seen.add(lit)
+                if ref_parse(lit) is None:
+                    continue
+                n += 1
+                r = ref_format(lit, 1) if lit.startswith("{") and not lit.startswith("{{") else None
+                ref = r is not None and r[1] == len(lit)
+                m = interp.run("format", lit)
+                mod = m is not None and m[0] == len(lit)
+                if ref != mod:
+                    cls = ("model-says-single:" if mod else "model-says-not-single:") + ("trailing-whitespace" if tl.strip() == "" and tl else "leading" if h else "other")
+                    diffs.setdefault(cls, []).append(lit)
+    ctx.cur.instances += n
+    ctx.cur.nontrivial.update(itertools.islice(seen, 5000))
+    ctx.note(f"{n} std-accepted literals: 'exactly one placeholder' decided alike by std's reading and by the extracted `format` rule, {len(diffs)} disagreement classes")
+    for cls, exs in sorted(diffs.items()):
+        ctx.report(
+            f"single:{cls}",
+            f"{ex.f.rel}:1",
+            f"`parsing::format` {'leaves an empty rest for' if cls.startswith('model-says-single') else 'does not consume all of'} {exs[0]!r} ({len(exs)} generated literals): "
+            + ("a literal with text / white space around its placeholder is taken for a bare placeholder and delegated transparently, dropping that text" if cls.startswith("model-says-single") else "a bare placeholder is no longer delegated, the caller's flags are lost"),
+            {"examples": exs[:10]},
+        )
+    ctx.floor("single-placeholder literals", n, 5000)
